@@ -591,11 +591,15 @@ PROPS['C10']['assumptions'] = PROPS['C10']['assumptions'] + STORE_ASSUME
 # C06: admission asks the sketch about the hash that CacheD::key_description puts into the command, reads record the hash that
 # mark_key_accessed computes - both must be the CONFIGURED hash of the key
 PROPS['C06']['verus'] = PROPS['C06']['verus'] + ['api']
-PROPS['C06'].setdefault('verus_only', {})['api'] = [r'CacheD::key_description$', r'CacheD::mark_key_accessed$']
+PROPS['C06'].setdefault('verus_only', {})['api'] = [r'CacheD::key_description$', r'CacheD::mark_key_accessed$',
+                                                     # 'a put whose weight fits': the weight the admission decision is taken on is the one the put variant computes
+                                                     # (the configured weight function with the right ttl flag, or the explicit weight [+ the ticker entry])
+                                                     r'CacheD::put$', r'CacheD::put_with_weight$', r'CacheD::put_with_ttl$', r'CacheD::put_with_weight_and_ttl$']
 PROPS['C06']['assumptions'] = PROPS['C06']['assumptions'] + API_ASSUME
 
 # the wiring of CacheD::new / ttl_ticker (unit `config`): the configured values reach the parts
-for _p, _only in (('C09', [r'CacheD::new$', r'CacheD::ttl_ticker$']), ('C10', [r'CacheD::new$', r'CacheD::ttl_ticker$']), ('C01', [r'CacheD::new$']), ('C13', [r'CacheD::new$'])):
+for _p, _only in (('C09', [r'CacheD::new$', r'CacheD::ttl_ticker$']), ('C10', [r'CacheD::new$', r'CacheD::ttl_ticker$']), ('C01', [r'CacheD::new$']), ('C13', [r'CacheD::new$']),
+                  ('C14', [r'CacheD::new$'])):     # the ageing threshold is the CONFIGURED number of counters
     if 'config' not in PROPS[_p]['verus']:
         PROPS[_p]['verus'] = PROPS[_p]['verus'] + ['config']
     PROPS[_p].setdefault('verus_only', {})
@@ -613,7 +617,7 @@ for _p, _only in (('C04', [r'AdmissionPolicy::delete$']), ('C05', [r'AdmissionPo
         PROPS[_p]['verus_only']['policy'] = []
     if 'policy' in PROPS[_p]['verus_only']:
         PROPS[_p]['verus_only']['policy'] = PROPS[_p]['verus_only']['policy'] + _only
-PROPS['C15']['verus_only']['pool'] = PROPS['C15']['verus_only']['pool'] + [r'Buffer::new$']
+PROPS['C15']['verus_only']['pool'] = PROPS['C15']['verus_only']['pool'] + [r'Buffer::new$', r'Pool::new$', r'Pool::add$']    # the record reaches exactly one of the pool_size buffers
 
 
 # floors refreshed from the final run on the pinned tree (obligations + bounded checks + region covers of the quick tier; the thorough tier has at least as many)
